@@ -437,10 +437,32 @@ def array_case(ctx, rng):
         t3 = list(t2)
         t3.insert(rng.randint(i + 1, len(t3)), 1)
         extra.append(tuple(t3))
+    # unfuse ONE fused axis (also a sparse-shrunk one, smaller than the product of its
+    # sub-sizes) and in the same call merge two other adjacent axes: same number of axes
+    intended = {}
+    fusedax = [i for i, ss in enumerate(subs) if ss]
+    if fusedax:
+        i = rng.choice(fusedax)
+        pieces = [(shape[k],) if k != i else tuple(subs[i]) for k in range(len(shape))]
+        cand = [k for k in range(len(shape) - 1) if k != i and k + 1 != i]
+        if cand:
+            k = rng.choice(cand)
+            merged = pieces[:k] + [(shape[k] * shape[k + 1],)] + pieces[k + 2 :]
+            t4 = tuple(v for p_ in merged for v in p_)
+        else:
+            t4 = tuple(v for p_ in pieces for v in p_)
+        # (size-one axes make such a request ambiguous for the axis-matching routine - the
+        # territory of the known finding - so only requests without any size-one axis are made)
+        if t4 not in extra and t4 not in targets and all(v >= 2 for v in t4) and all(v >= 2 for v in shape):
+            extra.append(t4)
+            intended[t4] = {id(x.indices[i].subinfo)}
+            ctx.count("array", "unfuse-and-merge-target")
     for tgt in list(targets) + extra:
         is_extra = tgt in extra
         req = list(tgt)
-        if req and rng.random() < 0.2:
+        if req and rng.random() < 0.2 and tgt not in intended:
+            # (not for requests that unfuse a sparse-shrunk axis: their sizes do not multiply to
+            # the current total size, so -1 cannot be resolved)
             req[rng.randrange(len(req))] = -1
         via = rng.choice(["method", "method", "function", "autoray"])
         fn = {"method": lambda: x.reshape(tuple(req)), "function": lambda: sr.reshape(x, tuple(req)), "autoray": lambda: ar.do("reshape", x, tuple(req))}[via]
@@ -451,7 +473,7 @@ def array_case(ctx, rng):
         for f in feats:
             ctx.count("feature", f)
         wit = {"x": describe(x, True), "target": req, "via": via}
-        amb = unfuses_preexisting(ac, x, tgt, pre_ids)
+        amb = unfuses_preexisting(ac, x, tgt, pre_ids - intended.get(tgt, set()))
         if amb:
             ctx.count("array", "ambiguous-parse-forward")
 
